@@ -47,6 +47,12 @@ def mk_case(rng, kind, quick):
         c["ev"] = "root"
         c["evn"] = 0
         c["staged"] = 0
+        if rng.random() < 0.5:
+            # read-modify-write traffic: a write follows the read of the same iteration, to the same element or to the insertion staging area
+            # (positions >= the shape; the shape is a multiple of every line size so that staging lines hold no regular element)
+            c["shape"] = shape = 8
+            c["rows_w"] = [dict(r, w=1, pos=(r["pos"] if rng.random() < 0.7 else shape + rng.randint(0, 2))) for r in rows_r if rng.random() < 0.6]
+            c["staged"] = 1 if c["rows_w"] else 0
         lines = [0, 0.5, 1, 1.5, 2, 3, 8]
         c["caps"] = [int(x * epl * 32) for x in lines]
     return c
@@ -83,6 +89,14 @@ def run(ctx):
     r = tlc.model_check("MC_Buffer.tla", cfg, workers=12)
     design = [family.design_entry("MC_Buffer", "buffet", r, "exhaustive: operational buffet (keep a line while its next use lies in the same window) = declarative fills / "
                                   "write-backs for every read/write trace of the scope, every eviction window and line size; bounds", ["DesignOK"])]
+    for rw, nn in ((0, 6 if ctx.quick else 7), (1, 5 if ctx.quick else 6)):
+        cfgc = tlc.write_cfg(f"MC_Cache_{rw}.cfg", f"CONSTANTS\n N = {nn}\n NL = 3\n RW = {rw}\nINIT Init\nNEXT Next\nINVARIANT DesignOK\nCHECK_DEADLOCK FALSE\n")
+        rc = tlc.model_check("MC_Cache.tla", cfgc, name=f"cache{rw}", workers=4)
+        design.append(family.design_entry("MC_Cache", "read traces" if rw == 0 else "read/write traces", rc,
+                                          "exhaustive: furthest-next-use with bypass = least fills over ALL replacement schedules (read traces); with writes: fills only for "
+                                          "read misses, every dirty line drained at least once, nothing resident at the end, overflow only through pinned lines", ["DesignOK"]))
+        r["stats"]["distinct"] += rc["stats"]["distinct"]
+        r["stats"]["generated"] += rc["stats"]["generated"]
     n = 250 if ctx.quick else 5000
     cases = [mk_case(rng, "buffet", ctx.quick) for _ in range(n)] + [mk_case(rng, "cache", ctx.quick) for _ in range(n)]
     cases += [mk_filter(rng) for _ in range(n // 3)] + [mk_combine(rng) for _ in range(n // 3)]
@@ -93,7 +107,7 @@ def run(ctx):
     recs = []
     meta = {}
     for lg in logs:
-        if lg["exc"] != "ok":
+        if lg["exc"] != "ok" or lg["rows_w"]:
             continue
         for res in lg["res"]:
             if res["exc"] != "ok" or res["read"] % lg["line_sz"] != 0:
@@ -124,7 +138,7 @@ def run(ctx):
            "rule": "a case is a well-formed synthetic trace (1-3 loop ranks, the tensor owning any subset of the outer ranks, 3-10 accesses over 5 coordinates, optional write trace "
                    "with staged positions) fed to the real buffetTraffic (evict-on root or any outer rank, line sizes 1/2/4 elements) or cacheTraffic (capacities 0 to 8 lines "
                    "incl. non-multiples of the line) or filterTrace / _combineTraces; each cache charge is verified by TLC's exhaustive replacement search",
-           "assumptions": ["well-formed traces in the sense of C16 (sorted, one row per access, distinct points)", "cache optimality is judged on read traces",
+           "assumptions": ["well-formed traces in the sense of C16 (sorted, one row per access, distinct points)", "the exhaustive replacement search judges read traces; with writes the charge is compared with the furthest-next-use policy (FTBuffer.CacheOp), writes following the read of the same iteration",
                            "evict-on names root or an outer rank of the binding"],
            "scope": {"cases": len(cases), "cache_searches": len(recs)}}
     return family.merge(res, part)
